@@ -38,6 +38,7 @@ func anyError(st *State, t types.Type) Val {
 	v := st.fresh("ioerr", t)
 	st.assume(fmt.Sprintf("(> (i_tag %s) %d)", v.T, maxKnownTag))
 	st.markIOFail()
+	v.NonNil = true
 	return v
 }
 
@@ -400,5 +401,16 @@ func (x *Exec) eofError(st *State, t types.Type, inMem bool, nothingLeft string)
 	ueof := x.e.ioErrGlobal(st, "ErrUnexpectedEOF")
 	st.assume(ite(nothingLeft, eq(v.T, eof), eq(v.T, ueof)))
 	st.markIOFail()
+	v.NonNil = true
 	return v
+}
+
+// addDynAlloc: bytes allocated by allocations whose size depends on data (make with a non-constant size, string(b)).
+func (st *State) addDynAlloc(n string) {
+	c := st.heapTerm("gh:$dynalloc", "Int")
+	st.setHeap("gh:$dynalloc", "Int", "(+ "+c+" "+n+")")
+}
+
+func (e *Engine) sizeofElem(t types.Type) int64 {
+	return types.SizesFor("gc", "amd64").Sizeof(t)
 }
